@@ -30,7 +30,19 @@ def run(ctx):
         # same, and the report must say so
         refine.refine_batch(ctx, ctx.size(30, 300), salt=77, force=_plateau_local, pid=PID, name="trace-refinement(local leaves started on plateaus)"),
         runs.monitor_batch(ctx, PID, ctx.size(40, 400), salt=79, name="traced-runs-monitor-C20(local leaves started on plateaus)", force=_plateau_local),
+        # an objective with NaN holes: NaN is a legal fitness, individuals that carry it are compared by every
+        # best-individual query — which must still not evaluate anything or change any counter
+        _nan_purity(ctx),
     ]
+
+
+def _nan_purity(ctx):
+    """under NaN fitness the order of individuals is a coin flip by design (the stdlib generator is consumed, two
+    calls may name different bests): only the clauses that do not depend on the order are judged here — looking
+    never evaluates the objective, and the evaluation counts shown are the demes' counters"""
+    sl = runs.nan_monitor_batch(ctx, PID, ctx.size(40, 400), salt=83)
+    sl.violations = [v for v in sl.violations if v["signature"] in ("C20/report-evaluated-objective", "C20/tree-evals", "C20/run-did-not-terminate")]
+    return sl
 
 
 def _plateau_local(rng):
